@@ -34,6 +34,18 @@ def batches(ctx, lang):
             if rng.random() < 0.4:
                 b.insert(rng.randint(0, len(b)), rc.placeholder())
             kind = 'arbitrary'
+        if rng.random() < 0.3:
+            # tokens as the Japanese annotators (janome / jigg) produce them: both the depccg names and the Jigg names are present
+            seen = set()
+            for nb in b:
+                for st in nb:
+                    for tok in st.tree.tokens:
+                        if id(tok) not in seen and 'word' in tok:
+                            seen.add(id(tok))
+                            tok['surf'] = tok['word']
+                            if rng.random() < 0.5:
+                                tok['base'] = tok.get('lemma', tok['word'])
+            kind += '+jigg-named-tokens'
         yield kind, b
 
 
